@@ -108,12 +108,16 @@ class FakeCL(object):
         self.sent = []      # (raw_config, bytes, t_ms)
         self.fail = False
         self.fail_next = set()   # next-hop node IDs for which the hand-over to the CL raises
+        self.fail_after = {}     # next-hop node ID -> number of hand-overs recorded for it from which on the hand-over raises
         self.serv_name = 'verif.fake'
 
     def send_bundle_func(self, raw_config):
         def sender(data):
-            if self.fail or (raw_config or {}).get('next') in self.fail_next:
+            nxt = (raw_config or {}).get('next')
+            if self.fail or nxt in self.fail_next:
                 raise RuntimeError('scripted CL failure')
+            if nxt in self.fail_after and len([1 for cfg, _d, _t in self.sent if (cfg or {}).get('next') == nxt]) >= self.fail_after[nxt]:
+                raise RuntimeError('scripted CL failure (after the first hand-over)')
             self.sent.append((raw_config, bytes(data), simloop.CLOCK.now_ms))
         return sender
 
